@@ -33,7 +33,7 @@ def poolpass (args : List String) : String :=
                          countIdleOnly := Gen.poolCountsIdleOnly }
       let r := pass cfg { conns := cs, reqs := rs, closing := [], nextId := nx }
       let showR (q : Req) := s!"{q.id}:{match q.conn with | some c => toString c | none => "-"}"
-      s!"conns={joinWith "," (r.conns.map (fun c => toString c.id))} closing={joinWith "," (r.closing.map (fun c => toString c.id))} reqs={joinWith "," (r.reqs.map showR)} next={r.nextId}"
+      s!"conns={joinWith "," (r.conns.map (fun c => toString c.id))} closing={joinWith "," (r.closing.map (fun c => toString c.1.id))} reqs={joinWith "," (r.reqs.map showR)} next={r.nextId}"
     | _, _, _, _, _ => "bad-args"
   | _ => "bad-args"
 
